@@ -360,6 +360,26 @@ fn main() {
             });
         }
     }
+    // C15, second sentence: a file that does not parse — wherever it lies and whatever it is called — is reported and skipped, the rest is generated
+    for (where_, bad) in [("src/broken.rs", "src/broken.rs"), ("the crate root src/lib.rs", "src/lib.rs"), ("the crate root src/main.rs", "src/main.rs"), ("src/commands/mod.rs", "src/commands/mod.rs")] {
+        for mode in ["none", "zod"] {
+            rep.case("unparsable_file_is_skipped_wherever_it_lies", &format!("{} --validation {}", where_, mode), &|| {
+                let p = root.join(format!("skip_{}_{}", bad.replace('/', "_").replace('.', "_"), mode));
+                let _ = fs::remove_dir_all(&p);
+                let pp = p.join("src-tauri");
+                fs::create_dir_all(pp.join("src/commands")).map_err(|e| e.to_string())?;
+                fs::write(pp.join("src/good.rs"), LIB).map_err(|e| e.to_string())?;
+                fs::write(pp.join(bad), "pub fn oops( { let x = ; }\n#[tauri::command]\npub fn never_seen() {}\n").map_err(|e| e.to_string())?;
+                let gp = p.join("out");
+                let (code, text) = run(&cli, &p, &["generate", "--project-path", pp.to_str().unwrap(), "--output-path", gp.to_str().unwrap(), "--validation", mode, "--force"])?;
+                if text.contains("panicked at") { return Err(format!("the process panicked (status {})", code)); }
+                if code != 0 { return Err(format!("one unparsable file ({}) stopped the whole run: status {}: {}", where_, code, text.chars().take(200).collect::<String>())); }
+                let c = fs::read_to_string(gp.join("commands.ts")).map_err(|e| format!("no commands.ts: {}", e))?;
+                if !c.contains("getUser") { return Err("commands.ts lacks the command of the valid file".into()); }
+                Ok("ok".into())
+            });
+        }
+    }
     // unusable paths
     for (pname, args) in [("missing-project-path", vec!["generate", "--project-path", "/nonexistent/verif/project", "--output-path", "out", "--validation", "none"]),
                           ("unknown-validation-library", vec!["generate", "--project-path", ".", "--output-path", "out", "--validation", "yup"]),
